@@ -5,6 +5,7 @@ import contextlib
 import io
 import itertools
 import random
+import time
 import re
 import traceback
 
@@ -652,6 +653,8 @@ class Session:
         call = op["call"]
         paths = op["paths"]
         maxp = op.get("max_paths", 30000)
+        max_secs = op.get("max_secs", 100)
+        t_start = time.time()
         saved = self.project()
         id2path = {}
         for p in paths:
@@ -712,7 +715,9 @@ class Session:
                     for alt in range(1, hi - lo + 1):
                         stack.append([x[2] - x[0] for x in rs.log[:pos]] + [alt])
                 outcomes[res] = outcomes.get(res, 0) + w
-                if n >= maxp:
+                if n >= maxp or time.time() - t_start > max_secs:
+                    # the enumeration is cut short (path budget, or wall clock on a loaded machine): the event says so and the
+                    # clauses that need every draw sequence do not apply
                     complete = False
                     break
         finally:
